@@ -43,6 +43,18 @@ CLAIMED = {
             "Kernel-checked about the code's own determinants: value = (x1-x3)(x2-x4)/((x1-x4)(x2-x3)) cross-multiplied, the Gram determinant / det[o,a,b] cancels; symmetries of the closed form; cr = -1 for the harmonic parameter; the quadrilateral construction returns the harmonic conjugate for any auxiliary point. Tied by differential runs (points 2-D/3-D, from a point, concurrent lines with vertices on axes / at infinity, coaxial planes, invariance under random projective maps, NotCollinear / NotConcurrent, harmonic_set incl. special lines).",
             NOTE_COMMON + "Coaxial planes and 3-D harmonic_set go through basis matrices (correspondence only).",
             "DESIGN.md 7/C11"),
+    "C13": ("Lean 4: the bracket formula of Conic.from_points is regenerated from curve.py and proved to vanish on all five points (ring, any commutative ring); Ellipse / Sphere matrix = Cartesian locus, centre / radius read-back (field_simp); correspondence: every constructor on lattice / Pythagorean data with exact on/off decisions from the S-layer quadratic form",
+            "Kernel-checked about the code's own formula: pᵀ(m+mᵀ)p = 0 for p in {a,b,c,d,e}; the assembled ellipse / sphere matrices cut out exactly ((x-cx)/hr)²+((y-cy)/vr)² = 1 resp. |x-c|² = r². Tied by differential runs: from_points / from_crossratio / from_tangent (incl. tangents through the origin) / from_foci; Circle, Ellipse, Sphere with centres of any homogeneous scale (points on the locus contained, near misses rejected, centre/radius/foci/area/volume); Cone and Cylinder with rational orthonormal frames in all octants.",
+            NOTE_COMMON + "from_tangent, from_foci, foci, Cone/Cylinder alignment and the measures are decided by correspondence only (csqrt/eigvalsh/rotation trusted).",
+            "DESIGN.md 7/C13"),
+    "C14": ("Lean 4: regenerated hat_matrix tables = ε-skew matrix; reduction uᵀ(mᵀAm)u = (u×l)ᵀA(u×l); decomposition of ghᵀ+hgᵀ (adjugate = -(g×h)(g×h)ᵀ, B + hat(±g×h) = 2ghᵀ / 2hgᵀ); secant identity via linear_combination; tangent/polar/dual facts for every n (Mathlib); correspondence with constructed rational intersection points",
+            "Kernel-checked: the degenerate dual conic of a line consists of the line's points on the quadric; its decomposition returns exactly the two components; a secant through two points of the quadric yields -2(u·p1)(u·p2)(p1ᵀAp2); tangent at a point contains it and is tangent, pole/polar reciprocity, dual of dual (all dimensions). Tied by differential runs: secants through two constructed rational points (exactly these two), tangents (contact point only), generic / missing / at-infinity lines (points on both, scale-free), circles, spheres, cones, line pairs, plane pairs; tangent from outside; dual and is_tangent for every quadric class, also after moving the quadric.",
+            NOTE_COMMON + "The 3-D projection step (basis_matrix) and csqrt are decided by correspondence only.",
+            "DESIGN.md 7/C14"),
+    "C15": ("Lean 4: det(ghᵀ+hgᵀ) = 0 and components via T14.2; pencil cubic coefficients regenerated from curve.py: det(xA+B) = αx³+βx²+γx+δ (ring); common points lie on the degenerate member and hence on a component (2(g·p)(h·p)); plane-pair minors identity explaining finding KF-C15-1; correspondence over all small line pairs, random plane pairs, conic pairs through four known common points",
+            "Kernel-checked about the code's own coefficients: the cubic whose root selects the degenerate member is det(xA+B); every common point of two conics lies on a component of that member, so intersecting one conic with both components finds all of them (at most four). Tied by differential runs: from_lines over all pairs in [-2,2]³ (thorough), from_planes (recorded finding: ~90% fail), non-degenerate not degenerate, cones raise NotReducible (also in mixed collections), conic pairs through 4 lattice points (sound + complete + ≤4), tangent / crossing circles, degenerate operand in either position.",
+            NOTE_COMMON + "roots() is C20; components in 3-D carries the known finding KF-C15-1.",
+            "DESIGN.md 7/C15"),
     "C16": ("Lean 4: the arithmetic of SegmentTensor.contains and Triangle.contains is regenerated from shapes.py (ast translator) and proved: z = -tD, w = -D (Gram determinant), interval test <=> 0<=t<=1; barycentric determinants = alpha,beta,gamma x det, sign test <=> closed triangle (ordered fields, linarith); polygon membership: correspondence against an independent exact even-odd specification, exhaustive over lattice polygons in the thorough tier",
             "Kernel-checked about the code's own expressions, for every ordered field: the segment test decides 0<=t<=1 whenever the endpoints are independent (Gram determinant > 0 by a Lagrange identity), the triangle test decides alpha,beta,gamma>=0 for both orientations, boundary included. Polygon.contains (ray casting with vertex/edge special cases, 3-D projection) is decided by differential runs against Spec.inPolygon (a different algorithm) on every lattice and half-lattice query point, all rotations/reversals of the cycle, embedded copies in 3-space, points off the plane and at infinity.",
             NOTE_COMMON + "The polygon crossing rule itself is not proved (exhaustive enumeration on the 4x4 lattice instead, labelled as a test); that even-odd parity is the closed region of a simple polygon is classical.",
